@@ -117,7 +117,7 @@ def _alarm(signum, frame):
     raise CallTimeout()
 
 
-def call(fn, *args, limit=30.0, **kw):
+def call(fn, *args, limit=120.0, **kw):
     """Run fn(*args) quietly with a time limit.  Returns ("ok", value) |
     ("exc", exception class name, message) | ("timeout",)."""
     old = signal.signal(signal.SIGALRM, _alarm)
